@@ -8,7 +8,8 @@
    It is FALSE of the faithful model (C17_full_statement_refuted, witness: a path containing a
    newline); C17_roundtrip is the statement under the exact boolean side condition wf_log,
    C17_roundtrip_simple the same under its plain-terms form, and the excluded logs are the known
-   classes C17-K4, K8 of known_findings.json (K1, K3, K5, K7 were repaired in /repo). *)
+   classes C17-K4, K8 and the residual K7 (an entry without ranges whose hash is empty or ends in a
+   blank) of known_findings.json (K1, K3, K5 and the main case of K7 were repaired in /repo). *)
 From Coq Require Import List NArith Bool.
 From Verif Require Import Base.Str Gen.GenSerial Model.Serial Proofs.SerialProofs Base.StrFacts.
 Import ListNotations.
@@ -52,7 +53,8 @@ Proof. exact full_statement_refuted. Qed.
 Print Assumptions C17_full_statement_refuted.
 
 Theorem C17_known_classes_fail :
-  rt_fails wit_newline = true /\ rt_fails wit_hash_space = true.
+  rt_fails wit_newline = true /\ rt_fails wit_hash_space = true /\
+  rt_fails wit_empty_hash_no_ranges = true.
 Proof. exact known_classes_fail. Qed.
 Print Assumptions C17_known_classes_fail.
 
